@@ -45,6 +45,20 @@ def generate(rng, tier, cls):
         scn['keep_rejected'] = True
         return scn
 
+    if rng.chance(0.15):
+        # codec names as users spell them: the header must carry the name
+        # exactly as it was passed
+        from dsim import codecs_cat, gen
+        cat = codecs_cat.catalogue()['codecs']
+        pool = []
+
+        for c in rng.sample(sorted(cat), 3):
+            pool.extend(rng.sample(cat[c], min(4, len(cat[c]))))
+
+        actors, sched = c01.gen_pipelines(rng, tier, npipes=1, pool=pool)
+        actors[0]['main_encoding'] = rng.choice(pool)
+        return {'actors': actors, 'schedule': sched, 'faults': []}
+
     return c01.generate(rng, tier, cls)
 
 
